@@ -245,4 +245,7 @@ def wide_narrow_set(seed: int, **kw) -> Dict[int, List[Dict[str, Any]]]:
         if e.get("cat") == "cuda_runtime" and e.get("name") in ("cudaLaunchKernelExC", "cudaMemcpyAsync", "cudaMemsetAsync"):
             e["name"] = "cudaLaunchKernel"
     r1 = gen_trace_set(seed + 1, n_ranks=1, **{**kw, "noncomplete_events": False, "n_extra_ops": 3})[0]
+    for e in r1:  # rank 1's device activities carry names of their own (another build of the kernels): they enter the trace-wide table after rank 0's 200 names
+        if e.get("cat") in ("kernel", "gpu_memcpy", "gpu_memset") and isinstance(e.get("name"), str):
+            e["name"] = e["name"] + "_r1"
     return {0: r0, 1: r1}
